@@ -98,7 +98,7 @@ pub struct Outcome {
 const CANARY: u8 = 0xC3;
 const GUARD: usize = 4096;
 
-/// Runs `f` twice (scratch filled with 0x00, then 0xA5) inside a window with `available() == tb`
+/// Runs `f` twice (scratch filled with 0xA5, then with a position-dependent non-zero pattern) inside a window with `available() == tb`
 /// (or of `win` bytes) placed at misalignment `mis` inside a canary-filled allocation.
 pub fn exec_window<S: ?Sized>(
     tb: usize,
@@ -119,9 +119,11 @@ pub fn exec_window<S: ?Sized>(
     let mut run = "ok";
     let mut ev = Vec::new();
     let mut canary = true;
-    for (round, fill) in [0x00u8, 0xA5u8].iter().enumerate() {
-        for b in big[off..off + len].iter_mut() {
-            *b = *fill;
+    // two different non-zero pre-fills: a constant pattern and a position-dependent one (an operation that relies on
+    // zeroed scratch, or reads a cell before writing it, gives two different results)
+    for round in 0..2usize {
+        for (i, b) in big[off..off + len].iter_mut().enumerate() {
+            *b = if round == 0 { 0xA5 } else { ((i.wrapping_mul(131).wrapping_add(89) ^ (i >> 7)) as u8) | 0x11 };
         }
         poulpy_cpu_ref::hal_defaults::scratch::verif_hooks::trace_start();
         let r = {
@@ -325,14 +327,16 @@ macro_rules! backend_cases {
                         if cnt == 0 { 0 } else { (cnt - 1) * len.next_multiple_of(poulpy_hal::DEFAULTALIGN) + len }
                     }
                     "vec_znx_normalize" | "vec_znx_normalize_assign" => module.vec_znx_normalize_tmp_bytes(),
-                    "vec_znx_lsh" | "vec_znx_lsh_assign" => module.vec_znx_lsh_tmp_bytes(),
-                    "vec_znx_rsh" | "vec_znx_rsh_assign" => module.vec_znx_rsh_tmp_bytes(),
+                    "vec_znx_lsh" | "vec_znx_lsh_assign" | "vec_znx_lsh_add_into" | "vec_znx_lsh_sub" => module.vec_znx_lsh_tmp_bytes(),
+                    "vec_znx_rsh" | "vec_znx_rsh_assign" | "vec_znx_rsh_add_into" | "vec_znx_rsh_sub" => module.vec_znx_rsh_tmp_bytes(),
                     "vec_znx_rotate_assign" => module.vec_znx_rotate_assign_tmp_bytes(),
                     "vec_znx_automorphism_assign" => module.vec_znx_automorphism_assign_tmp_bytes(),
                     "vec_znx_mul_xp_minus_one_assign" => module.vec_znx_mul_xp_minus_one_assign_tmp_bytes(),
                     "vec_znx_split_ring" => module.vec_znx_split_ring_tmp_bytes(),
                     "vec_znx_merge_rings" => module.vec_znx_merge_rings_tmp_bytes(),
-                    "vec_znx_big_normalize" => module.vec_znx_big_normalize_tmp_bytes(),
+                    "vec_znx_big_normalize" | "vec_znx_big_normalize_add_assign" | "vec_znx_big_normalize_sub_assign" => {
+                        module.vec_znx_big_normalize_tmp_bytes()
+                    }
                     "vec_znx_big_automorphism_assign" => module.vec_znx_big_automorphism_assign_tmp_bytes(),
                     "vec_znx_idft_apply" => module.vec_znx_idft_apply_tmp_bytes(),
                     "vmp_prepare" => module.vmp_prepare_tmp_bytes(kv.g("rows"), kv.g("colsin"), kv.g("colsout").max(1), size),
@@ -354,7 +358,7 @@ macro_rules! backend_cases {
                     "glwe_encrypt_pk" | "glwe_encrypt_zero_pk" => module.glwe_encrypt_pk_tmp_bytes(&res),
                     "glwe_decrypt" => module.glwe_decrypt_tmp_bytes(&res),
                     "glwe_normalize" | "glwe_normalize_assign" => module.glwe_normalize_tmp_bytes(),
-                    "glwe_rsh" | "glwe_lsh" | "glwe_lsh_assign" => module.glwe_shift_tmp_bytes(),
+                    "glwe_rsh" | "glwe_lsh" | "glwe_lsh_assign" | "glwe_lsh_add" | "glwe_lsh_sub" => module.glwe_shift_tmp_bytes(),
                     "glwe_rotate_assign" | "glwe_mul_xp_minus_one_assign" => module.glwe_rotate_tmp_bytes(),
                     "glwe_keyswitch" => module.glwe_keyswitch_tmp_bytes(&res, &a, &gglwe),
                     "glwe_keyswitch_assign" => module.glwe_keyswitch_tmp_bytes(&res, &res, &gglwe),
@@ -428,18 +432,26 @@ macro_rules! backend_cases {
                         })
                     }
                     // ------------------------------------------------------------------ HAL
+                    // shift / normalise family: `size` = destination limbs, `asize` = operand limbs (0: same), `sh` = shift in
+                    // bits (absent: one limb + 3 bits), `roff` / `rneg` = |res_offset| and its sign, `ab2k` = operand radix
                     "vec_znx_normalize" => {
-                        let a = rand_vec(n, 1, size, 40, 1);
-                        let rb = if kv.g("ab2k") == 0 { b2k } else { kv.g("ab2k") };
+                        let asz = if kv.g("asize") == 0 { size } else { kv.g("asize") };
+                        let ab = if kv.g("ab2k") == 0 { b2k } else { kv.g("ab2k") };
+                        let a = rand_vec(n, 1, asz, 40, 1);
+                        let off: i64 = if kv.g("rneg") == 1 { -(kv.g("roff") as i64) } else { kv.g("roff") as i64 };
+                        let r0 = rand_vec(n, 1, size, b2k, 9);
                         finish!(tb, |s: &mut Scratch<BE>| {
-                            let mut r = VecZnx::alloc(n, 1, size);
-                            module.vec_znx_normalize(&mut r, rb, 0, 0, &a, b2k, 0, s);
+                            let mut r = r0.clone();
+                            module.vec_znx_normalize(&mut r, b2k, off, 0, &a, ab, 0, s);
                             bytes_of_i64(r.raw())
                         })
                     }
                     "vec_znx_normalize_assign" | "vec_znx_lsh_assign" | "vec_znx_rsh_assign" => {
                         let a = rand_vec(n, 1, size, if op == "vec_znx_normalize_assign" { 40 } else { b2k }, 2);
-                        let sh = if size >= 2 { b2k + 3 } else { b2k / 2 };
+                        let sh = match kv.0.get("sh") {
+                            Some(v) => v.parse::<usize>().unwrap_or(0),
+                            None => if size >= 2 { b2k + 3 } else { b2k / 2 },
+                        };
                         finish!(tb, |s: &mut Scratch<BE>| {
                             let mut r = a.clone();
                             match op {
@@ -450,15 +462,23 @@ macro_rules! backend_cases {
                             bytes_of_i64(r.raw())
                         })
                     }
-                    "vec_znx_lsh" | "vec_znx_rsh" => {
-                        let a = rand_vec(n, 1, size, b2k, 2);
-                        let sh = if size >= 2 { b2k + 3 } else { b2k / 2 };
+                    "vec_znx_lsh" | "vec_znx_rsh" | "vec_znx_lsh_add_into" | "vec_znx_lsh_sub" | "vec_znx_rsh_add_into" | "vec_znx_rsh_sub" => {
+                        let asz = if kv.g("asize") == 0 { size } else { kv.g("asize") };
+                        let a = rand_vec(n, 1, asz, b2k, 2);
+                        let r0 = rand_vec(n, 1, size, b2k, 3);
+                        let sh = match kv.0.get("sh") {
+                            Some(v) => v.parse::<usize>().unwrap_or(0),
+                            None => if size >= 2 { b2k + 3 } else { b2k / 2 },
+                        };
                         finish!(tb, |s: &mut Scratch<BE>| {
-                            let mut r = VecZnx::alloc(n, 1, size);
-                            if op == "vec_znx_lsh" {
-                                module.vec_znx_lsh(b2k, sh, &mut r, 0, &a, 0, s);
-                            } else {
-                                module.vec_znx_rsh(b2k, sh, &mut r, 0, &a, 0, s);
+                            let mut r = r0.clone();
+                            match op {
+                                "vec_znx_lsh" => module.vec_znx_lsh(b2k, sh, &mut r, 0, &a, 0, s),
+                                "vec_znx_rsh" => module.vec_znx_rsh(b2k, sh, &mut r, 0, &a, 0, s),
+                                "vec_znx_lsh_add_into" => module.vec_znx_lsh_add_into(b2k, sh, &mut r, 0, &a, 0, s),
+                                "vec_znx_lsh_sub" => module.vec_znx_lsh_sub(b2k, sh, &mut r, 0, &a, 0, s),
+                                "vec_znx_rsh_add_into" => module.vec_znx_rsh_add_into(b2k, sh, &mut r, 0, &a, 0, s),
+                                _ => module.vec_znx_rsh_sub(b2k, sh, &mut r, 0, &a, 0, s),
                             }
                             bytes_of_i64(r.raw())
                         })
@@ -499,19 +519,33 @@ macro_rules! backend_cases {
                             bytes_of_i64(r.raw())
                         })
                     }
-                    "vec_znx_big_normalize" | "vec_znx_big_automorphism_assign" | "vec_znx_idft_apply" => {
-                        let a = rand_vec(n, 1, size, b2k, 7);
-                        let mut a_dft = module.vec_znx_dft_alloc(1, size);
+                    "vec_znx_big_normalize" | "vec_znx_big_normalize_add_assign" | "vec_znx_big_normalize_sub_assign"
+                    | "vec_znx_big_automorphism_assign" | "vec_znx_idft_apply" => {
+                        let big_norm = op.starts_with("vec_znx_big_normalize");
+                        let asz = if big_norm && kv.g("asize") != 0 { kv.g("asize") } else { size };
+                        let ab = if big_norm && kv.g("ab2k") != 0 { kv.g("ab2k") } else { b2k };
+                        let a = rand_vec(n, 1, asz, ab, 7);
+                        let mut a_dft = module.vec_znx_dft_alloc(1, asz);
                         module.vec_znx_dft_apply(1, 0, &mut a_dft, 0, &a, 0);
                         let mut sc = big_scratch();
-                        let mut a_big = module.vec_znx_big_alloc(1, size);
+                        let mut a_big = module.vec_znx_big_alloc(1, asz);
                         module.vec_znx_idft_apply(&mut a_big, 0, &a_dft, 0, sc.borrow());
+                        let off: i64 = if kv.g("rneg") == 1 { -(kv.g("roff") as i64) } else { kv.g("roff") as i64 };
+                        let r0 = rand_vec(n, 1, size, b2k, 9);
                         match op {
-                            "vec_znx_big_normalize" => finish!(tb, |s: &mut Scratch<BE>| {
-                                let mut r = VecZnx::alloc(n, 1, size);
-                                module.vec_znx_big_normalize(&mut r, b2k, 0, 0, &a_big, b2k, 0, s);
-                                bytes_of_i64(r.raw())
-                            }),
+                            "vec_znx_big_normalize" | "vec_znx_big_normalize_add_assign" | "vec_znx_big_normalize_sub_assign" => {
+                                finish!(tb, |s: &mut Scratch<BE>| {
+                                    let mut r = r0.clone();
+                                    match op {
+                                        "vec_znx_big_normalize" => module.vec_znx_big_normalize(&mut r, b2k, off, 0, &a_big, ab, 0, s),
+                                        "vec_znx_big_normalize_add_assign" => {
+                                            module.vec_znx_big_normalize_add_assign(&mut r, b2k, off, 0, &a_big, ab, 0, s)
+                                        }
+                                        _ => module.vec_znx_big_normalize_sub_assign(&mut r, b2k, off, 0, &a_big, ab, 0, s),
+                                    }
+                                    bytes_of_i64(r.raw())
+                                })
+                            }
                             "vec_znx_big_automorphism_assign" => {
                                 finish!(tb, |s: &mut Scratch<BE>| {
                                     let mut r = module.vec_znx_big_alloc(1, size);
@@ -688,13 +722,19 @@ macro_rules! backend_cases {
                         })
                     }
                     // ------------------------------------------------------------------ core: GLWE unary
-                    "glwe_normalize" | "glwe_normalize_assign" | "glwe_rsh" | "glwe_lsh" | "glwe_lsh_assign"
-                    | "glwe_rotate_assign" | "glwe_mul_xp_minus_one_assign" => {
-                        let a = rand_glwe(n, b2k, size, rank, 12);
+                    "glwe_normalize" | "glwe_normalize_assign" | "glwe_rsh" | "glwe_lsh" | "glwe_lsh_assign" | "glwe_lsh_add"
+                    | "glwe_lsh_sub" | "glwe_rotate_assign" | "glwe_mul_xp_minus_one_assign" => {
                         let ab2k = if kv.g("ab2k") == 0 { b2k } else { kv.g("ab2k") };
-                        let sh = if size >= 2 { b2k + 2 } else { b2k / 2 };
+                        let sh = match kv.0.get("sh") {
+                            Some(v) => v.parse::<usize>().unwrap_or(0),
+                            None => if size >= 2 { b2k + 2 } else { b2k / 2 },
+                        };
+                        // `asize` = limbs of the operand of the two-operand shifts (0: same as the destination)
+                        let asz = if kv.g("asize") == 0 || !op.starts_with("glwe_lsh") || op == "glwe_lsh_assign" { size } else { kv.g("asize") };
+                        let a = rand_glwe(n, b2k, asz, rank, 12);
+                        let r0 = rand_glwe(n, b2k, size, rank, 13);
                         finish!(tb, |s: &mut Scratch<BE>| {
-                            let mut r = a.clone();
+                            let mut r = if asz == size && !matches!(op, "glwe_lsh" | "glwe_lsh_add" | "glwe_lsh_sub") { a.clone() } else { r0.clone() };
                             match op {
                                 "glwe_normalize" => {
                                     let rs = (b2k * size).div_ceil(ab2k);
@@ -705,6 +745,8 @@ macro_rules! backend_cases {
                                 "glwe_normalize_assign" => module.glwe_normalize_assign(&mut r, s),
                                 "glwe_rsh" => module.glwe_rsh(sh, &mut r, s),
                                 "glwe_lsh" => module.glwe_lsh(&mut r, &a, sh, s),
+                                "glwe_lsh_add" => module.glwe_lsh_add(&mut r, &a, sh, s),
+                                "glwe_lsh_sub" => module.glwe_lsh_sub(&mut r, &a, sh, s),
                                 "glwe_lsh_assign" => module.glwe_lsh_assign(&mut r, sh, s),
                                 "glwe_rotate_assign" => module.glwe_rotate_assign(3, &mut r, s),
                                 _ => module.glwe_mul_xp_minus_one_assign(3, &mut r, s),
